@@ -17,6 +17,7 @@ type TV struct {
 	Sort string     // SMT sort (always set for terms)
 	Loc  *Loc       // engine-level pointer (then T may be empty)
 	Tup  []TV
+	ElemTy types.Type // for elems(s): the element type of the Go slice
 }
 
 type SpecEnv struct {
@@ -1174,7 +1175,12 @@ func (e *SpecEnv) call(x *ECall) TV {
 	case "select":
 		a, i := e.eval(x.Args[0]), e.eval(x.Args[1])
 		_, rs := arraySorts(a.Sort)
-		return specTV(fmt.Sprintf("(select %s %s)", a.T, i.T), rs)
+		r := specTV(fmt.Sprintf("(select %s %s)", a.T, i.T), rs)
+		if a.ElemTy != nil {
+			// elems(s) of a Go slice: the selected cell has the slice's element type (so that fields can be selected)
+			r.Ty = a.ElemTy
+		}
+		return r
 	case "store":
 		a, i, v := e.eval(x.Args[0]), e.eval(x.Args[1]), e.eval(x.Args[2])
 		return specTV(fmt.Sprintf("(store %s %s %s)", a.T, i.T, v.T), a.Sort)
@@ -1199,7 +1205,9 @@ func (e *SpecEnv) call(x *ECall) TV {
 			efail("elems of non-slice")
 		}
 		cn, cs := c.elemComp(u.Elem())
-		return specTV(fmt.Sprintf("(select %s (s.base %s))", compIn(c, e.Heap, cn, cs), v.T), "(Array Int "+c.sortOf(u.Elem())+")")
+		ev := specTV(fmt.Sprintf("(select %s (s.base %s))", compIn(c, e.Heap, cn, cs), v.T), "(Array Int "+c.sortOf(u.Elem())+")")
+		ev.ElemTy = u.Elem()
+		return ev
 	}
 	if j := strings.LastIndex(x.Fun, "."); j >= 0 {
 		if _, ok := c.SS.Defines[x.Fun[j+1:]]; ok {
